@@ -197,12 +197,20 @@ def observe(gfa):
             continue
         l = gfa.line(n)
         lookup[n] = None if l is None else _tkey(keys, l)
+    misc = {}
+    try:
+        misc["n_input_header_lines"] = gfa.n_input_header_lines
+        h = gfa.header
+        misc["header_value_classes"] = dict((t, type(h._data.get(t)).__name__) for t in sorted(h.tagnames))
+    except Exception as e:      # an unreadable header is visible through "lines" already
+        misc["unreadable"] = type(e).__name__
     return {
         "version": gfa.version,
         "lines": sorted(text_lines(gfa)),
         "names": names,
         "lookup": lookup,
         "graph": graph,
+        "misc": misc,
     }
 
 
